@@ -1,4 +1,5 @@
 import ObiVerif.Model.Uniq
+import ObiVerif.Model.UniqLoop
 import ObiVerif.Driver.Util
 /-!
 line protocol for C06
@@ -78,6 +79,21 @@ def showRecs (tag : String) (stats : List String) (l : List Rec) : String :=
 def field (pre : String) (s : String) : Option String :=
   if s.startsWith pre then some (s.drop pre.length).toString else none
 
+/-- the loop-level model (`Model/UniqLoop.lean`) on the chunks of the input, dealt to `workers` chains -/
+def loopRun (srt : Sorter) (o : Opts) (chunks workers : Nat) (rev : Bool) (input : List Rec) : List Rec :=
+  let cs := group (hashC (hashCode chunks)) input
+  let cs := if rev then cs.reverse else cs
+  uniqL srt o (dealTo (max workers 1) cs)
+
+def splitSlash (ws : List String) : List (List String) :=
+  (ws.foldr (fun w (acc : List String × List (List String)) =>
+    if w = "/" then ([], acc.1 :: acc.2) else (w :: acc.1, acc.2)) ([], [])) |> fun p => p.1 :: p.2
+
+def showCode : Code → String
+  | .h n => toString n
+  | .s q => hex q
+  | .v x => hexS x
+
 def run (line : String) : String :=
   match words line with
   | "uniq" :: mode :: c :: w :: b :: ns :: na :: cats :: stats :: dm :: recs =>
@@ -97,12 +113,38 @@ def run (line : String) : String :=
       let o : Opts := { cats := cats, stats := stats, na := na, noSingleton := ns ≠ 0 }
       let u := uniqCRC chunks o input
       let s1 := showRecs "U" stats u
+      -- the loop-level transcription, executed side by side (two sorts, two assignments of the chunks);
+      -- `uniqL_refines` proves that it cannot differ
+      let wk ← if mode = "disk" then some 1 else (← field "w=" w).toNat?
+      let l1 := showRecs "U" stats (loopRun sortMerge o chunks wk false input)
+      let l2 := showRecs "U" stats (loopRun sortMergeAnti o chunks 1 true input)
+      let s1 := if l1 = s1 ∧ l2 = s1 then s1 else s1 ++ " LAYERS-DIFFER"
       if dm = "*" then pure s1
       else
         let k ← unhexS dm
         let d := demerge k u
         let r := uniqCRC chunks o d
         pure (joinSp [s1, showRecs "D" stats d, showRecs "R" stats r])
+    r.getD "bad-op"
+  | "stage" :: k :: na :: rest =>
+    -- one `ISequenceSubChunk` stage (one worker, one classifier) on a sequence of batches, loop level
+    let r : Option String := do
+      let kd ← field "k=" k
+      let na ← unhexS (← field "na=" na)
+      let lv : Level ← if kd = "s" then some (Kind.seq, seqC)
+        else if kd.startsWith "a:" then (unhexS (kd.drop 2).toString).map fun key => (Kind.annot, catC na key)
+        else none
+      let batches ← (splitSlash rest).mapM (·.mapM parseRec)
+      let acc := batches.foldl (fun (acc : ClsSt × List (List Rec) × List Rec) b =>
+          let p := subChunkL lv.1 lv.2 sortMerge acc.1 b
+          (p.1, acc.2.1 ++ p.2, if b.length > 1 then b else acc.2.2)) (ClsSt.init, [], [])
+      let st := acc.1
+      let codes := acc.2.2.map fun r => (st.code (lv.2 r)).2
+      let vals := codes.eraseDups.map fun c => match st.value c with
+        | .ok v => showCode v
+        | .error e => e
+      let bs := acc.2.1.map fun b => showList (sortS (b.map fun r => hexS r.id))
+      pure (joinSp (["B", toString bs.length] ++ bs ++ ["C", showList (codes.map toString), "V", showList vals]))
     r.getD "bad-op"
   | "dispatch" :: c :: b :: recs =>
     -- the chunk files `ISequenceChunkOnDisk` finds: one per hash code, with the records of that code
